@@ -470,3 +470,113 @@ Definition unop_fn (u : unop) p (x : num) : out num :=
   end.
 Lemma b_unary_num u p x : b_unary u p [ANum x] = do r <- unop_fn u p x; Ok (RNum r).
 Proof. destruct u; reflexivity. Qed.
+
+(* ---- round against R7RS (round to even): the two agree except on the ties n/2 whose
+   truncation is even *)
+Definition round_r7rs_known (a : num) : bool :=
+  match a with Rational n d => (d =? 2) && Z.even (Z.quot n 2) | _ => false end.
+
+Lemma coprime_2_odd n : Z.gcd n 2 = 1 -> n mod 2 = 1.
+Proof.
+  intros G. pose proof (Z.mod_pos_bound n 2 ltac:(lia)) as B. pose proof (Z.div_mod n 2 ltac:(lia)) as E.
+  destruct (Z.eq_dec (n mod 2) 0) as [M|M]; [|lia]. exfalso.
+  assert (D : (2 | Z.gcd n 2)) by (apply Z.gcd_greatest; [exists (n / 2); lia|exists 1; lia]).
+  rewrite G in D. destruct D as [k Hk]. lia.
+Qed.
+
+(* the tie test of Qround_even on a reduced fraction: x + 1/2 is an integer iff d = 2 *)
+Lemma tie_iff n d : 0 < d -> Z.gcd n d = 1 ->
+  Qeq_bool ((n # Z.to_pos d) + (1 # 2)) (inject_Z (Qfloor ((n # Z.to_pos d) + (1 # 2)))) = (d =? 2).
+Proof.
+  intros Pd G.
+  assert (F : Qfloor ((n # Z.to_pos d) + (1 # 2)) = (2 * n + d) / (2 * d)).
+  { unfold Qplus, Qfloor. cbn [Qnum Qden]. rewrite Pos2Z.inj_mul, Z2Pos.id by exact Pd. f_equal; ring. }
+  rewrite F. set (f := (2 * n + d) / (2 * d)).
+  pose proof (Z.div_mod (2 * n + d) (2 * d) ltac:(lia)) as DM. fold f in DM.
+  pose proof (Z.mod_pos_bound (2 * n + d) (2 * d) ltac:(lia)) as MB.
+  set (r := (2 * n + d) mod (2 * d)) in *.
+  assert (Q : Qeq_bool ((n # Z.to_pos d) + (1 # 2)) (inject_Z f) = true <-> r = 0).
+  { rewrite Qeq_bool_iff. unfold Qeq, Qplus, inject_Z. cbn [Qnum Qden].
+    rewrite Pos2Z.inj_mul, Z2Pos.id by exact Pd. split; intros H; nia. }
+  destruct (Z.eqb_spec d 2) as [D2|D2].
+  - apply Q. subst d. pose proof (coprime_2_odd n G) as O.
+    pose proof (Z.div_mod n 2 ltac:(lia)) as En. rewrite O in En.
+    assert (r = (2 * n + 2) mod 4) by reflexivity.
+    assert ((2 * n + 2) mod 4 = 0); [|lia].
+    rewrite En. replace (2 * (2 * (n / 2) + 1) + 2) with ((n / 2 + 1) * 4) by ring. apply Z.mod_mul. lia.
+  - destruct (Qeq_bool ((n # Z.to_pos d) + (1 # 2)) (inject_Z f)) eqn:T; [|reflexivity].
+    exfalso. assert (R0 : r = 0) by (apply Q; reflexivity). rewrite R0, Z.add_0_r in DM.
+    assert (Dv : (d | n * 2)) by (exists (2 * f - 1); lia).
+    assert (D' : (d | 2)) by (apply Z.gauss with n; [exact Dv|now rewrite Z.gcd_comm]).
+    apply Z.divide_pos_le in D'; [|lia]. assert (d = 1) by lia. subst d. lia.
+Qed.
+
+Lemma round_even_vs_away n d : 0 < d -> Z.gcd n d = 1 ->
+  (round_away_z n d = Qround_even (n # Z.to_pos d) <-> (d =? 2) && Z.even (Z.quot n 2) = false).
+Proof.
+  intros Pd G.
+  unfold Qround_even. rewrite tie_iff by assumption.
+  assert (F : Qfloor ((n # Z.to_pos d) + (1 # 2)) = (2 * n + d) / (2 * d)).
+  { unfold Qplus, Qfloor. cbn [Qnum Qden]. rewrite Pos2Z.inj_mul, Z2Pos.id by exact Pd. f_equal; ring. }
+  rewrite F. clear F.
+  destruct (Z.eqb_spec d 2) as [D2|D2]; cbn [andb].
+  - (* a tie: n odd *)
+    subst d. pose proof (coprime_2_odd n G) as O. unfold round_away_z.
+    pose proof (Z.quot_rem' n 2) as QR. pose proof (Z.rem_bound_abs n 2 ltac:(lia)) as RB.
+    assert (S1 : 0 <= n -> 0 <= Z.rem n 2) by (intros; apply Z.rem_nonneg; lia).
+    assert (S2 : n <= 0 -> Z.rem n 2 <= 0) by (intros; apply Z.rem_nonpos; lia).
+    pose proof (Z.div_mod n 2 ltac:(lia)) as En. rewrite O in En.
+    replace (2 * n + 2) with ((n / 2 + 1) * 4) by lia. replace (2 * 2) with 4 by reflexivity.
+    rewrite Z.div_mul by lia.
+    set (q := Z.quot n 2) in *. set (m := Z.rem n 2) in *. set (k := n / 2) in *.
+    rewrite (Zodd_mod (k + 1)), (Zeven_mod q).
+    pose proof (Z.mod_pos_bound (k + 1) 2 ltac:(lia)) as B1. pose proof (Z.div_mod (k + 1) 2 ltac:(lia)) as E1.
+    pose proof (Z.mod_pos_bound q 2 ltac:(lia)) as B2. pose proof (Z.div_mod q 2 ltac:(lia)) as E2.
+    destruct (Z.leb_spec 2 (2 * Z.abs m)) as [L|L]; [|lia].
+    unfold Zeq_bool.
+    destruct (Z.ltb_spec n 0) as [Nn|Nn];
+      destruct (Z.compare_spec ((k + 1) mod 2) 1); destruct (Z.compare_spec (q mod 2) 0);
+      split; intros HH; try reflexivity; try discriminate; try lia.
+  - (* no tie: floor (x + 1/2) in both *)
+    split; [reflexivity|intros _].
+    rewrite round_away_z_spec by exact Pd. unfold Qround_away, Qabs, Qplus, Qfloor. cbn [Qnum Qden].
+    rewrite Pos2Z.inj_mul, Z2Pos.id by exact Pd.
+    replace (Z.abs n * 2 + 1 * d) with (2 * Z.abs n + d) by ring. replace (d * 2) with (2 * d) by ring.
+    destruct (Z.ltb_spec n 0) as [Nn|Nn].
+    + rewrite Z.sgn_neg by lia. rewrite (Z.abs_neq n) by lia.
+      (* x + 1/2 is not an integer *)
+      pose proof (tie_iff n d Pd G) as T. apply Z.eqb_neq in D2. rewrite D2 in T.
+      assert (F : Qfloor ((n # Z.to_pos d) + (1 # 2)) = (2 * n + d) / (2 * d)).
+      { unfold Qplus, Qfloor. cbn [Qnum Qden]. rewrite Pos2Z.inj_mul, Z2Pos.id by exact Pd. f_equal; ring. }
+      rewrite F in T.
+      assert (NZ : (2 * n + d) mod (2 * d) <> 0).
+      { intros M. pose proof (Z.div_mod (2 * n + d) (2 * d) ltac:(lia)) as DM. rewrite M, Z.add_0_r in DM.
+        assert (X : Qeq_bool ((n # Z.to_pos d) + (1 # 2)) (inject_Z ((2 * n + d) / (2 * d))) = true).
+        { apply Qeq_bool_iff. unfold Qeq, Qplus, inject_Z. cbn [Qnum Qden].
+          rewrite Pos2Z.inj_mul, Z2Pos.id by exact Pd. nia. }
+        rewrite X in T. discriminate. }
+      pose proof (Z.div_mod (2 * n + d) (2 * d) ltac:(lia)) as DM.
+      pose proof (Z.mod_pos_bound (2 * n + d) (2 * d) ltac:(lia)) as MB.
+      set (q := (2 * n + d) / (2 * d)) in *. set (r := (2 * n + d) mod (2 * d)) in *.
+      assert (E : (2 * - n + d) / (2 * d) = - q).
+      { symmetry. apply Z.div_unique with (2 * d - r); lia. }
+      rewrite E. ring.
+    + rewrite (Z.abs_eq n) by lia. destruct (Z.eq_dec n 0) as [->|N0].
+      * change (2 * 0 + d) with d. rewrite Z.div_small by lia. reflexivity.
+      * rewrite Z.sgn_pos by lia. ring.
+Qed.
+
+Theorem round_r7rs_iff p a : wfb a = true -> is_exact a = true ->
+  exists r z, num_round p a = Ok r /\ int_of r = Some z /\
+    (z = Qround_even (qv a) <-> round_r7rs_known a = false).
+Proof.
+  intros W X. destruct (round_exact p a W X) as [r [Hr [_ [_ Ir]]]].
+  exists r, (Qround_away (qv a)). split; [exact Hr|]. split; [exact Ir|].
+  destruct a as [z|z|n d|f]; try discriminate; cbn [round_r7rs_known qv].
+  - change (inject_Z z) with (z # Z.to_pos 1). rewrite <- round_away_z_spec by lia.
+    pose proof (round_even_vs_away z 1 ltac:(lia) (Z.gcd_1_r z)) as H. cbn [Z.eqb andb] in H. exact H.
+  - change (inject_Z z) with (z # Z.to_pos 1). rewrite <- round_away_z_spec by lia.
+    pose proof (round_even_vs_away z 1 ltac:(lia) (Z.gcd_1_r z)) as H. cbn [Z.eqb andb] in H. exact H.
+  - cbn [wfb] in W. destruct (rwfb_parts _ _ W) as [_ [_ [Pd G]]].
+    rewrite <- round_away_z_spec by exact Pd. now apply round_even_vs_away.
+Qed.
